@@ -423,12 +423,21 @@ def finalState (singles starL : List Param) (pargs sargs : List PosArg) (cs : Li
 def isIdentChar (c : Char) : Bool := c.isAlphanum || c == '_'
 def isIdent (n : Str) : Bool := !n.isEmpty && n.all isIdentChar
 
-/-- parameter names are distinct identifiers; no option is called `help` (its long form would be `--help`) or starts
-with an underscore (argparse would derive a different `dest` from `--_x`) -/
+def commandName : Str := ['c', 'o', 'm', 'm', 'a', 'n', 'd']
+
+/-- What a member table must satisfy for the theorems (and for the real parser / session to work at all):
+parameter names are distinct identifiers (ASCII), and
+* no option is called `help` — its long form would be `--help`, which every parser already owns (finding F1);
+* no option starts with an underscore — argparse derives the dest `x` from `--_x`, the session looks for `_x` (F2);
+* no parameter is called `command` — the namespace attribute under which the parser stores the member itself (F4).
+Python guarantees the first part for ASCII source; the three exclusions are exactly the ways in which a subclass of a
+pool class can add a public member that the control interface cannot serve (known findings; both pool classes satisfy
+them, which the check confirms on every run by evaluating `wellFormed` on the table extracted from the real classes). -/
 def paramsOk (ps : List Param) : Bool :=
   ps.all (fun p => isIdent p.name) && distinctB (ps.map (·.name))
   && ps.all (fun p => !(p.isOpt && (dash p.name == helpName)))
   && ps.all (fun p => !(p.isOpt && !isPublic p.name))
+  && ps.all (fun p => p.name != commandName)
 
 def Member.ok (m : Member) : Bool := isIdent m.name && (!m.exposed || paramsOk m.params)
 
